@@ -1864,6 +1864,8 @@ class Sim(object):
 
 def execute(trace):
     kernel.import_library()
+    if trace.get("alarm"):
+        kernel.CALL_ALARM_S = trace["alarm"]
     sim = Sim(trace).run()
     return {"results": sim.results, "violations": sim.violations,
             "counters": sim.counters, "sig": sim.sig,
@@ -1885,7 +1887,8 @@ def gen_hostzone(rng, index):
             steps.append({"k": "pert", "act": ["tzset", 0]})
             steps.append({"k": "pert", "act": ["dst", 0]})
     trace.update(kind="hostzone", zones=zones, cur=0, isdst=0,
-                 host_tz=kernel.posix_tz(west), steps=steps)
+                 host_tz=kernel.posix_tz(
+                     west, ["XST", "UTC", "GMT"][index % 3]), steps=steps)
     return trace
 
 
@@ -1893,7 +1896,13 @@ def check_trace_full(trace):
     if trace.get("host_tz"):
         res = kernel.run_in_host_zone(PROP, trace)
     else:
-        res = kernel.in_fresh_fork(execute, (trace,))
+        res = kernel.in_fresh_fork(
+            execute, (trace,), timeout=1500 if trace.get("alarm") else 300)
+    if any(v.get("class") == "hang" for v in res["violations"]) and (
+            not trace.get("alarm")):
+        # the per-call alarm is the one place real time enters: a call that
+        # timed out is decided again with a six-fold alarm before it counts
+        return check_trace_full(dict(trace, alarm=6 * kernel.CALL_ALARM_S))
     counters = dict(res["counters"])
     counters["simulated_time_covered_s"] = res["sim_time_us"] // 10 ** 6
     dig = kernel.digest([res["results"], res["violations"]])
